@@ -595,3 +595,46 @@ func ResponseFromResult(req *http.Request, res *Result, body *ScriptedBody) *htt
 	}
 	return NewResponse(req, res.Status, res.Header, body, trailer)
 }
+
+// OpenBody is a request body whose sender has not finished: it delivers Data
+// and then blocks in Read until Release or Close is called (a streaming client
+// that sent what it had and now waits for the answer).
+type OpenBody struct {
+	Data []byte
+	mu   sync.Mutex
+	off  int
+	once sync.Once
+	done chan struct{}
+}
+
+// NewOpenBody returns an OpenBody that first delivers data.
+func NewOpenBody(data []byte) *OpenBody { return &OpenBody{Data: data, done: make(chan struct{})} }
+
+func (b *OpenBody) Read(p []byte) (int, error) {
+	b.mu.Lock()
+	if b.off < len(b.Data) {
+		n := copy(p, b.Data[b.off:])
+		b.off += n
+		b.mu.Unlock()
+		return n, nil
+	}
+	b.mu.Unlock()
+	<-b.done
+	return 0, io.EOF
+}
+
+// Release ends the body (the sender closes its side).
+func (b *OpenBody) Release() { b.once.Do(func() { close(b.done) }) }
+
+// Close is what net/http calls when the handler is done with the request.
+func (b *OpenBody) Close() error { b.Release(); return nil }
+
+// Released reports whether the body was ended.
+func (b *OpenBody) Released() bool {
+	select {
+	case <-b.done:
+		return true
+	default:
+		return false
+	}
+}
